@@ -329,33 +329,51 @@ Scalar MASA::fans_sa_transient_free_shear<Scalar>::eval_q_rho_e(Scalar x,Scalar 
 template <typename Scalar>
 Scalar MASA::fans_sa_transient_free_shear<Scalar>::eval_exact_u(Scalar x,Scalar y)
 {
+  return eval_exact_u(x,y,0.0);
+}
+
+template <typename Scalar>
+Scalar MASA::fans_sa_transient_free_shear<Scalar>::eval_exact_u(Scalar x,Scalar y,Scalar t)
+{
   using std::cos;
   using std::sin;
 
   Scalar u_an;
-  u_an = u_0 + u_x * sin(a_ux * pi * x / L) + u_y * cos(a_uy * pi * y / L);
+  u_an = u_0 + u_x * sin(a_ux * pi * x / L) + u_y * cos(a_uy * pi * y / L) + u_t * cos(a_ut * pi * t / L);
   return u_an; 
 }
 
 template <typename Scalar>
 Scalar MASA::fans_sa_transient_free_shear<Scalar>::eval_exact_v(Scalar x,Scalar y)
 {
+  return eval_exact_v(x,y,0.0);
+}
+
+template <typename Scalar>
+Scalar MASA::fans_sa_transient_free_shear<Scalar>::eval_exact_v(Scalar x,Scalar y,Scalar t)
+{
   using std::cos;
   using std::sin;
 
   Scalar v_an;
-  v_an = v_0 + v_x * cos(a_vx * pi * x / L) + v_y * sin(a_vy * pi * y / L);
+  v_an = v_0 + v_x * cos(a_vx * pi * x / L) + v_y * sin(a_vy * pi * y / L) + v_t * sin(a_vt * pi * t / L);
   return v_an;
 }
 
 template <typename Scalar>
 Scalar MASA::fans_sa_transient_free_shear<Scalar>::eval_exact_p(Scalar x,Scalar y)
 {
+  return eval_exact_p(x,y,0.0);
+}
+
+template <typename Scalar>
+Scalar MASA::fans_sa_transient_free_shear<Scalar>::eval_exact_p(Scalar x,Scalar y,Scalar t)
+{
   using std::cos;
   using std::sin;
 
   Scalar p_an;
-  p_an = p_0 + p_x * cos(a_px * pi * x / L) + p_y * sin(a_py * pi * y / L);
+  p_an = p_0 + p_x * cos(a_px * pi * x / L) + p_y * sin(a_py * pi * y / L) + p_t * cos(a_pt * pi * t / L);
   return p_an;
 
 }
@@ -379,11 +397,17 @@ Scalar MASA::fans_sa_transient_free_shear<Scalar>::eval_exact_nu(Scalar x,Scalar
 template <typename Scalar>
 Scalar MASA::fans_sa_transient_free_shear<Scalar>::eval_exact_rho(Scalar x,Scalar y)
 {
+  return eval_exact_rho(x,y,0.0);
+}
+
+template <typename Scalar>
+Scalar MASA::fans_sa_transient_free_shear<Scalar>::eval_exact_rho(Scalar x,Scalar y,Scalar t)
+{
   using std::cos;
   using std::sin;
 
   Scalar rho_an;
-  rho_an = rho_0 + rho_x * sin(a_rhox * pi * x / L) + rho_y * cos(a_rhoy * pi * y / L);
+  rho_an = rho_0 + rho_x * sin(a_rhox * pi * x / L) + rho_y * cos(a_rhoy * pi * y / L) + rho_t * sin(a_rhot * pi * t / L);
   return rho_an;
 }
 
